@@ -63,13 +63,27 @@ Definition der_dec (b : bytes) : option (Z * Z) :=
   | None => None
   end.
 
-(* keys.Signature.parse_bytes dispatch: DER form only when longer than 64 bytes and starting 0x30;
-   otherwise the input must be exactly 64 raw bytes r||s.  Result: (r, s, hash_type) *)
+(* keys.Signature.parse_bytes dispatch, after fix C13-2 (`len(signature) != 64 and startswith(0x30)`): the DER form
+   (signature ++ hash type) for every input starting 0x30 whose length is not 64; exactly 64 bytes are always
+   the raw form r||s.  Result: (r, s, hash_type) *)
 Definition lib_sig_parse (der_decode : bytes -> option (Z * Z)) (sig : bytes) : option (Z * Z * Z) :=
-  if (64 <? Z.of_nat (length sig)) && starts_with sig 48 then
+  if negb (Z.of_nat (length sig) =? 64) && starts_with sig 48 then
     match der_decode (removelast sig) with
     | Some (r, s) =>
         (* convert_der_sig formats '%064x%064x': longer when r or s >= 2^256 -> length check fails *)
+        if (r <? 2 ^ 256) && (s <? 2 ^ 256) then Some (r, s, bz (last sig x00)) else None
+    | None => None
+    end
+  else if (Z.of_nat (length sig) =? 64) then
+    Some (of_be (firstn 32 sig), of_be (skipn 32 sig), 1)
+  else None.
+
+(* the dispatch before fix C13-2 (`len(signature) > 64 and startswith(0x30)`): nothing of 64 bytes or less was
+   ever read as DER *)
+Definition lib_sig_parse_prefix (der_decode : bytes -> option (Z * Z)) (sig : bytes) : option (Z * Z * Z) :=
+  if (64 <? Z.of_nat (length sig)) && starts_with sig 48 then
+    match der_decode (removelast sig) with
+    | Some (r, s) =>
         if (r <? 2 ^ 256) && (s <? 2 ^ 256) then Some (r, s, bz (last sig x00)) else None
     | None => None
     end
@@ -145,6 +159,7 @@ Definition lib_der_dec (sig : bytes) : option (Z * Z) :=
 
 (* Signature.parse_bytes with the decoder the library uses *)
 Definition lib_parse (sig : bytes) : option (Z * Z * Z) := lib_sig_parse lib_der_dec sig.
+Definition lib_parse_prefix (sig : bytes) : option (Z * Z * Z) := lib_sig_parse_prefix lib_der_dec sig.
 
 (* what a strict reader does with the same bytes: BIP66 form (signature ++ hash type) first, otherwise the
    library's documented 64-byte raw form r||s (hash type SIGHASH_ALL) *)
@@ -159,9 +174,9 @@ Definition spec_parse (sig : bytes) : option (Z * Z * Z) :=
   else None.
 
 (* finding classes (decidable from the signature bytes alone) *)
-(* short_der_rejected: a BIP66-valid signature (with hash type) of at most 64 bytes is never read as DER *)
-Definition short_der (sig : bytes) : bool := is_strict_der sig && (Z.of_nat (length sig) <=? 64).
-(* lax_der_accepted: longer than 64 bytes, tag 0x30, not BIP66-valid, yet decoded by the library *)
+(* der64_read_as_raw: a BIP66-valid signature (with hash type) of exactly 64 bytes is read as raw r||s *)
+Definition der64 (sig : bytes) : bool := is_strict_der sig && (Z.of_nat (length sig) =? 64).
+(* lax_der_accepted: tag 0x30, not 64 bytes, not BIP66-valid, yet decoded by the library *)
 Definition lax_der (sig : bytes) : bool :=
-  (64 <? Z.of_nat (length sig)) && starts_with sig 48 && negb (is_strict_der sig) &&
+  negb (Z.of_nat (length sig) =? 64) && starts_with sig 48 && negb (is_strict_der sig) &&
   match lib_der_dec (removelast sig) with Some _ => true | None => false end.
